@@ -534,3 +534,83 @@ Lemma indicated_refuted :
     /\ exists fr, data_request a 7 false r = (Ok fr, 8)
        /\ receive b fr = RxIndication ([153; 153; 52; 18; 1; 0; 170; 187], None, None, None, None).
 Proof. exists wit_a, wit_b, wit_r_none. exact dest_none_refuted. Qed.
+
+(** ** The receiving MAC over histories of PIB updates and frames *)
+
+Lemma pib_after_cons p o ops :
+  pib_after p (o :: ops)
+  = pib_after (match o with RFrame _ => p | RUpd u => apply_update p u end) ops.
+Proof. reflexivity. Qed.
+
+Lemma rrun_app : forall pre p post,
+  rrun p (pre ++ post) = rrun p pre ++ rrun (pib_after p pre) post.
+Proof.
+  induction pre as [|o pre IH]; intros p post; [reflexivity|].
+  rewrite pib_after_cons. destruct o as [b|u]; cbn [app rrun].
+  - rewrite IH. reflexivity.
+  - apply IH.
+Qed.
+
+Lemma rrun_length : forall ops p, length (rrun p ops) = frames_in ops.
+Proof.
+  induction ops as [|o ops IH]; intros p; [reflexivity|].
+  destruct o as [b|u]; cbn [rrun frames_in length]; [f_equal|]; apply IH.
+Qed.
+
+(** every frame of every history is judged with the PIB current when it arrives *)
+Lemma history_frame_at p pre b post :
+  nth (frames_in pre) (rrun p (pre ++ RFrame b :: post)) RxNothing = receive (pib_after p pre) b.
+Proof.
+  rewrite rrun_app. rewrite app_nth2 by (rewrite rrun_length; apply Nat.le_refl).
+  rewrite rrun_length, Nat.sub_diag. reflexivity.
+Qed.
+
+Theorem history_indicated_iff_addressed p0 pre post a r seq wait :
+  valid_request a r = true -> seq < 256 -> q_dam r <> MACAddressMode_NONE ->
+  exists fr,
+    data_request a seq wait r = (Ok fr, (seq + 1) mod 256)
+    /\ nth (frames_in pre) (rrun p0 (pre ++ RFrame fr :: post)) RxNothing
+       = let cur := pib_after p0 pre in
+         if macPromiscuousMode cur
+            || addressed cur (d_dpan (data_packet a r)) (d_daddr (data_packet a r))
+         then RxIndication (expected_indication a r) else RxNothing.
+Proof.
+  intros Hv Hs Hd.
+  destruct (indicated_iff_addressed a (pib_after p0 pre) r seq wait Hv Hs Hd) as (fr & H1 & _ & H3).
+  exists fr. split; [exact H1|]. rewrite history_frame_at. exact H3.
+Qed.
+
+(** what each way of writing the PIB leaves in it *)
+Lemma update_effects p a v pan short :
+  apply_update p (UStart pan) = set_attr p APanId pan
+  /\ macPanId (apply_update p (UStart pan)) = pan
+  /\ macPanId (apply_update p (UAssocOk pan short)) = pan
+  /\ macShortAddress (apply_update p (UAssocOk pan short)) = short
+  /\ macPanId (apply_update p (UAssocFail pan)) = 65535
+  /\ macPanId (apply_update p (USet APanId v)) = v
+  /\ macShortAddress (apply_update p (USet AShort v)) = v
+  /\ macExtendedAddress (apply_update p (USet AExt v)) = v
+  /\ macPromiscuousMode (apply_update p (USet APromisc v)) = negb (v =? 0)
+  /\ apply_update p UReset = pib_default
+  /\ (a <> APanId -> macPanId (apply_update p (USet a v)) = macPanId p).
+Proof.
+  repeat split; try reflexivity. intros Ha. destruct a; try reflexivity. contradiction.
+Qed.
+
+(** a peer that moves from PAN 0x1111 to PAN 0x2222 through MLME-START, after having received
+    a frame: frames to the new PAN are indicated, frames to the old one are not *)
+Definition hist_b : pib := {| macPanId := 4369; macShortAddress := 2; macExtendedAddress := 9833440827789222417;
+                              macPromiscuousMode := false; macImplicitBroadcast := false |}.
+Definition hist_req (pan : N) : request :=
+  {| q_sam := MACAddressMode_SHORT; q_dam := MACAddressMode_SHORT; q_dpan := Some pan; q_daddr := Some 2;
+     q_suppressed := false; q_msdu := [1; 2] |}.
+
+Lemma nonvacuous_history :
+  fst (hrun wit_a 0 hist_b [HSend (hist_req 4369); HUpd (UStart 8738); HSend (hist_req 8738); HSend (hist_req 4369);
+                            HUpd (UAssocFail 13107); HSend (hist_req 65535); HSend (hist_req 8738)])
+  = Some [([[1; 136; 0; 17; 17; 2; 0; 52; 18; 1; 0; 1; 2]], [([1; 2], Some 4369, Some 2, Some 4660, Some 1)]);
+          ([[1; 136; 1; 34; 34; 2; 0; 52; 18; 1; 0; 1; 2]], [([1; 2], Some 8738, Some 2, Some 4660, Some 1)]);
+          ([[1; 136; 2; 17; 17; 2; 0; 52; 18; 1; 0; 1; 2]], []);
+          ([[1; 136; 3; 255; 255; 2; 0; 52; 18; 1; 0; 1; 2]], [([1; 2], Some 65535, Some 2, Some 4660, Some 1)]);
+          ([[1; 136; 4; 34; 34; 2; 0; 52; 18; 1; 0; 1; 2]], [])].
+Proof. vm_compute. reflexivity. Qed.
